@@ -193,7 +193,7 @@ def c04(tier, seed, work):
     else:
         fams = [dict(name="c04-forge-%d-%d" % s, insess=True, cmds="CmdsAB", maxcalls=2, maxatt=2, kinds="KindsForge", auth=s[0], integ=s[1])
                 for s in SUITES]
-        fams.append(dict(name="c04-forge3", insess=True, cmds="CmdsAR", maxcalls=2, maxatt=3, kinds="KindsForge", auth=a, integ=i))
+        fams.append(dict(name="c04-forge3", insess=True, cmds="CmdsAR", maxcalls=1, maxatt=4, kinds="KindsForge", auth=a, integ=i))
         mc = [("MCConsole", "MC_Console_sess.cfg")]
     res = console_check("C04", tier, seed, work, mc, fams, COMMON_ASSUME)
     # tampering and forgery catalogue (GenForge.tla), validated with the generic walk trace spec
